@@ -58,6 +58,10 @@ Proof.
     destruct (sim_use st log (c :: rest) c rest home name eq_refl RS RU ltac:(lia)) as (st' & v & home' & H1 & H2 & H3 & H4).
     rewrite H4. exists (mkP st' (Some c) (v :: log)), (c :: rest), home'. cbn [pstep pcur pst plog]. rewrite H1.
     split; [reflexivity|]. split; [constructor; [reflexivity|assumption|assumption]|]. split; [reflexivity|]. cbn [plog]. rewrite len_cons. lia.
+  - (* EMarkFor *)
+    destruct (mark_for_all st log (c :: rest) c rest home eq_refl RS RU ltac:(lia)) as (H1 & H2 & H3 & H4).
+    rewrite H4. eexists (mkP _ (Some c) log), (c :: rest), home. cbn [pstep pcur pst plog]. rewrite H1. cbn [rbind of_res].
+    split; [reflexivity|]. split; [constructor; [reflexivity|assumption|assumption]|]. split; [reflexivity|]. cbn [plog]. lia.
   - (* EMarkArgs *)
     destruct (mark_args_all st log (c :: rest) c rest home eq_refl RS RU ltac:(lia)) as (H1 & H2 & H3 & H4).
     rewrite H4. eexists (mkP _ (Some c) log), (c :: rest), home. cbn [pstep pcur pst plog]. rewrite H1. cbn [rbind of_res].
